@@ -510,6 +510,7 @@ impl Parser<'_> {
                     "ACOS" => UnOpKind::Acos,
                     "ATAN" => UnOpKind::Atan,
                     "ABS" => UnOpKind::Abs,
+                    "SGN" => UnOpKind::Sgn,
                     "EXP" => UnOpKind::Exp,
                     "LN" => UnOpKind::Ln,
                     "LG" => UnOpKind::Lg,
